@@ -20,8 +20,8 @@ import (
 
 func init() {
 	core.Register(&core.Check{
-		ID: "C45",
-		Rule: "cases: (a) PRNG-generated nested JSON-like Go values (nil, bool, every integer and float type at boundaries, json.Number, strings valid and invalid UTF-8, []byte, map[string]any, []any, depth <= 5): NewValue/NewStruct/NewList then AsInterface/AsMap/AsSlice vs a reference normalisation (integers and float32 -> float64, []byte -> base64 string, non-finite -> \"NaN\"/\"Infinity\"/\"-Infinity\"), invalid UTF-8 and unsupported types must be rejected; for finite content encoding/json of AsInterface and protojson of the Value parse to the same JSON value; (b) every linked message type with PRNG content: anypb.New / MarshalFrom / UnmarshalTo / UnmarshalNew / MessageIs / MessageName round trip, MessageIs false for every other sampled type (incl. types whose name is a suffix or prefix of the packed type's name), UnmarshalTo into another type fails; distinct = distinct values / (type, bytes); non-trivial = value is a container or message has a populated field",
+		ID:     "C45",
+		Rule:   "cases: (a) PRNG-generated nested JSON-like Go values (nil, bool, every integer and float type at boundaries, json.Number, strings valid and invalid UTF-8, []byte, map[string]any, []any, depth <= 5): NewValue/NewStruct/NewList then AsInterface/AsMap/AsSlice vs a reference normalisation (integers and float32 -> float64, []byte -> base64 string, non-finite -> \"NaN\"/\"Infinity\"/\"-Infinity\"), invalid UTF-8 and unsupported types must be rejected; for finite content encoding/json of AsInterface and protojson of the Value parse to the same JSON value; (b) every linked message type with PRNG content: anypb.New / MarshalFrom / UnmarshalTo / UnmarshalNew / MessageIs / MessageName round trip, MessageIs false for every other sampled type (incl. types whose name is a suffix or prefix of the packed type's name), UnmarshalTo into another type fails; distinct = distinct values / (type, bytes); non-trivial = value is a container or message has a populated field",
 		Assume: []string{"reflect.DeepEqual over the reference normalisation written in checks/c45.go", "encoding/json"},
 		Batches: func(tier string) []core.Batch {
 			var bs []core.Batch
